@@ -246,3 +246,8 @@ def run(repo, rep, tier):
         blk = sup[0]._parent._parent.body
         noted = any("db['kex']['%s'][3].append(" % A in unparse(s) for s in blk)
         rep.check('openssh-note', 'the bugzilla note is an info note (row 3) of the same algorithm, added in the same block', noted, sup[0], 'note placement changed')
+
+    # ---- the table the notes are written to is private to the scan (shared rule, props/_dbcopy.py) ----------------------------------------
+    from props import _dbcopy
+    from sa.consteval import ConstEnv as _CE2
+    _dbcopy.check_private_copy(repo, rep, 'private-table', _CE2(repo), 'the 2048-bit modulus warning appended for one target stays on the master table and is shown for every later target whatever modulus it hands out')
